@@ -513,6 +513,12 @@ func (fx *FnExec) isNil(v Val) string {
 		return v.L[0]
 	case *types.Interface:
 		return sEq(v.L[0], "0")
+	case *types.Struct, *types.Array:
+		return tFalse
+	case *types.Basic:
+		if !isTypeParam(v.T) && under(v.T).(*types.Basic).Kind() != types.UnsafePointer && under(v.T).(*types.Basic).Kind() != types.UntypedNil {
+			return tFalse
+		}
 	}
 	if v.Loc != nil {
 		return tFalse
@@ -759,6 +765,36 @@ func (env *Env) call(n *ast.CallExpr) (Val, error) {
 			return v, nil
 		}
 		return Val{}, fmt.Errorf("unknown identifier %q", id.Name)
+	case "has":
+		m, err := arg(0)
+		if err != nil {
+			return Val{}, err
+		}
+		k, err := arg(1)
+		if err != nil {
+			return Val{}, err
+		}
+		mt, ok := under(m.T).(*types.Map)
+		if m.T == nil || !ok {
+			return Val{}, fmt.Errorf("has(map, key)")
+		}
+		names := fx.mapHeapNames(m.T)
+		dom := fx.heapVar(env.heap, names[0], "")
+		return Val{T: bt, L: []string{sSel(sSel(dom, m.one()), fx.mapKeyTerm(mt.Key(), k))}}, nil
+	case "str_contains", "str_concat", "str_upper", "str_lower", "str_lt":
+		var as []string
+		for i := range n.Args {
+			a, err := arg(i)
+			if err != nil {
+				return Val{}, err
+			}
+			as = append(as, env.idxTerm(a))
+		}
+		var t types.Type = types.Typ[types.String]
+		if fname == "str_contains" || fname == "str_lt" {
+			t = bt
+		}
+		return Val{T: t, L: []string{app(fname, as...)}}, nil
 	case "typeid":
 		t, err := env.typeExpr(n.Args[0])
 		if err != nil {
